@@ -64,8 +64,8 @@ def main(tier: str) -> int:
     conds = [Cond(M, "marker_prefixes_every_nonempty_line", T, 120, dict(C19_T=p, C19_LEN=n)) for p in PLACEMENTS]
     for o in ORDINARY:
         conds.append(Cond(M, "ordinary_template_renders_as_upstream", T, 120, dict(C19_ORD=o, C19_LEN=("2" if tier == "quick" else "3"))))
-    for w in range(4):
-        conds.append(Cond(M, "overlay_environment_renders_as_upstream", T, 120, dict(C19_OVW=str(w))))
+    # environment history (lexer caches): native enumeration only -- two engines compiling templates under tracing cost > 10 min per path
+    conds.append(Cond(M, "overlay_environment_renders_as_upstream", T, 120, expect="native"))
     conds.append(Cond(M, "assert_tag_is_a_conditional", T, 60))
     conds.append(Cond(M, "use_query_tags_are_conditionals", T, 60))
     run_conditions(rep, conds)
